@@ -25,8 +25,12 @@ RULES = {
     "R5": "one notion of scope: whether the producer of an input takes part in the ordering is decided by membership in "
     "the set of traversed nodes (all nesting levels), in sort() and in every helper or fast path it calls - never by "
     "comparing the producer's graph with particular graphs (that forgets producers in intermediate nesting levels)",
+    "R6": "nested-scope edges are unconditional: under the GRAPH / GRAPHS dispatch of the sort, every node of the attribute's "
+    "subgraph(s) is recorded as a predecessor of the owning node - the recording call sits directly in the loop(s) over the "
+    "subgraph's nodes, with no test on the nested node (its uses, successors, outputs …) and no early exit deciding whether "
+    "the edge exists",
 }
-FLOORS = {"R1": 2, "R2": 4, "R3": 3, "R4": 1, "R5": 2}
+FLOORS = {"R1": 2, "R2": 4, "R3": 3, "R4": 1, "R5": 2, "R6": 2}
 EXPLANATION = (
     "Dominance of the cycle rejection over every state-writing call of Graph.sort (effect summaries), and structural "
     "checks that relinking goes through the ownership-preserving API into the graph each node already belongs to."
@@ -211,6 +215,38 @@ def run(ctx):
                   how="control conditions of the edge-recording statement inside the loop over node.inputs (in sort or in the helper it iterates); exits before it",
                   construct="producer edge recorded conditionally")
     ctx.require(n_edges >= 1, "Graph.sort: loop recording the producers of node.inputs not found")
+    # R6
+    n_nested = 0
+    for fn in [f] + list(f.nested.values()):
+        for br in (x for x in own_nodes(fn.node) if isinstance(x, ast.If)):
+            kinds = {y.attr for y in ast.walk(br.test) if isinstance(y, ast.Attribute) and y.attr in ("GRAPH", "GRAPHS") and (dotted_of(y) or "").endswith(f"AttributeType.{y.attr}")}
+            if not kinds:
+                continue
+            loops = [x for st in br.body for x in ast.walk(st) if isinstance(x, ast.For) and isinstance(x.target, ast.Name)]
+            for lp in loops:
+                edge = [c for st in lp.body for c in ast.walk(st) if isinstance(c, ast.Call) and any(isinstance(a, ast.Name) and a.id == lp.target.id for a in c.args)
+                        and not any(isinstance(z, ast.For) and z is not lp and any(c is w for w in ast.walk(z)) for z in ast.walk(lp))]
+                if not edge:
+                    continue
+                ec = edge[0]
+                n_nested += 1
+                bad = None
+                par = getattr(ec, "_parent", None)
+                while par is not None and par is not br:
+                    if isinstance(par, (ast.If, ast.While, ast.Try, ast.IfExp, ast.BoolOp, ast.Match)):
+                        bad = bad or par
+                    par = getattr(par, "_parent", None)
+                pos = (ec.lineno, ec.col_offset)
+                for st in br.body:
+                    for x in ast.walk(st):
+                        if isinstance(x, (ast.Continue, ast.Break, ast.Return)) and (x.lineno, x.col_offset) < pos:
+                            bad = bad or getattr(x, "_parent", None) or x
+                ctx.check("R6", f"{fn.local}: {'/'.join(sorted(kinds))} branch records {norm(ec)[:50]} for every nested node", bad is None, fn, bad if bad is not None else ec,
+                          f"the edge from a node of the subgraph to the node that owns it is recorded only when `{norm(bad.test)[:70] if isinstance(bad, (ast.If, ast.While, ast.IfExp)) else norm(bad)[:70] if bad is not None else ''}` "
+                          "allows it: a nested node without the edge does not hold its outer producers before the owning node (and whether it has one "
+                          "depends on state outside the sorted graphs, e.g. uses by nodes that belong to no graph)",
+                          how="control conditions and exits between the GRAPH/GRAPHS dispatch and the edge-recording call", construct="nested-node edge recorded conditionally")
+    ctx.require(n_nested >= 2, "Graph.sort: loops recording the nodes of GRAPH / GRAPHS subgraphs as predecessors not found")
     # R5
     gcls = repo.cls(f"{CORE}:Graph")
     scope_funcs = [f] + list(f.nested.values())
